@@ -18,6 +18,7 @@ CONSTANTS
   Allowed <- AllCalls
   ReopenModes <- AllModes
   Depth = 20
+  Mode = "random"
   FinalList = TRUE
 INVARIANTS Emit
 CHECK_DEADLOCK FALSE
